@@ -1,4 +1,4 @@
-import VermouthModel.C01
+import VermouthModel.C01_Mod
 open Proto C01
 
 def pairOf (t : Tok) : Option (Int × Int) := do
@@ -49,6 +49,26 @@ def mapSpecOf (t : Tok) : Option MapSpec := do
     pure { blockTo := { nodes := ns, edges := es, inters := is, nrexcl := ← nrexcl.optInt? },
            weights := ← weightsOf weights, refs := ← pairsOfTok refs }
   | _ => none
+
+def modNodeOf (t : Tok) : Option ModNode := do
+  match ← t.list? with
+  | [k, n, r, c, isNew] => pure { key := ← k.int?, attrs := { name := ← n.optStr?, resid := ← r.optInt?, cg := ← c.optInt? },
+                                   isNew := (← isNew.int?) != 0 }
+  | _ => none
+
+def modSpecOf (t : Tok) : Option ModSpec := do
+  match ← t.list? with
+  | [nodes, edges, inters, weights, refs] =>
+    pure { nodes := ← (← nodes.list?).mapM modNodeOf, edges := ← pairsOfTok edges,
+           inters := ← (← inters.list?).mapM interOf, weights := ← weightsOf weights, refs := ← pairsOfTok refs }
+  | _ => none
+
+def strLt (a b : List String) : Bool :=
+  match a, b with
+  | [], [] => false
+  | [], _ => true
+  | _, [] => false
+  | x :: xs, y :: ys => x < y || (x == y && strLt xs ys)
 
 def rawOfTok (t : Tok) : Option (Nat × List (Int × Int)) := do
   match ← t.list? with
@@ -110,6 +130,21 @@ def handle (_ : Unit) (toks : List Tok) : Unit × String :=
         match doMapping { atoms := as, edges := es } ms rw with
         | .ok res => pure (encResult res)
         | .error e => pure ("error " ++ e.str)
+    | [Tok.str "mapmod", atoms, edges, maps, raw, mods, rawMods] => do
+        let as ← (← atoms.list?).mapM atomOf
+        let es ← pairsOfTok edges
+        let ms ← (← maps.list?).mapM mapSpecOf
+        let rw ← (← raw.list?).mapM rawOfTok
+        let md ← (← mods.list?).mapM modSpecOf
+        let rm ← (← rawMods.list?).mapM rawOfTok
+        match doMappingAll { atoms := as, edges := es } ms rw md rm with
+        | .ok res => pure (encResult res)
+        | .error e => pure ("error " ++ e.str)
+    | [Tok.str "modselect", known, groups] => do
+        let kn ← (← known.list?).mapM strs?
+        let gr ← (← groups.list?).mapM strs?
+        let needed := sortBy strLt (neededMods kn gr)
+        pure (encList (needed.map (fun n => encList (n.map encStr))) ++ " " ++ encNat (uncoveredGroups kn gr))
     | [Tok.str "order", keysets] => do
         -- only the ordering: placements given by their atom keys; answer = the processing order
         let ks ← (← keysets.list?).mapM ints?
